@@ -21,6 +21,7 @@
 #include <limits>
 #include <ompl/base/spaces/DubinsStateSpace.h>
 #include <ompl/base/spaces/ReedsSheppStateSpace.h>
+#include <ompl/base/spaces/OwenStateSpace.h>
 
 namespace ob = ompl::base;
 using DSS = ob::DubinsStateSpace;
@@ -237,6 +238,80 @@ static int runRS(double rho, double lo, double hi)
     return 0;
 }
 
+// header `owen rho=<bits> pitch=<bits> lo=<bits> hi=<bits>`  (states are `x y z yaw`)
+//   owpath <s1> <s2>       -> `cat=<L|M|H|?> <W> <t> <p> <q> r=<turnRadius> dz=<deltaZ> phi=<phi> k=<numTurns> len=<length()>` | `nopath`
+//   owdist <s1> <s2>       -> `d=<bits>`                       distance (getMaximumExtent() when there is no path)
+//   owinterp <s1> <s2> <t> -> `<x> <y> <z> <yaw>`              interpolate(s1, s2, t, out)
+// getPath uses boost's TOMS748 root bracketing (not modelled): drv_dubins takes the printed root (`r` for high-altitude,
+// `phi` for medium-altitude paths) as a recorded answer in the `…r` variants of these ops and recomputes everything else:
+//   owpathr <s1> <s2> <root>, owinterpr <s1> <s2> <t> <root>   (this harness ignores <root> and prints what the real code computes)
+using OSS = ob::OwenStateSpace;
+
+static bool setPose4(OSS::StateType *s, const std::vector<std::string> &t, size_t i)
+{
+    auto x = vp::parseBits(t[i]), y = vp::parseBits(t[i + 1]), z = vp::parseBits(t[i + 2]), th = vp::parseBits(t[i + 3]);
+    if (!x || !y || !z || !th)
+        return false;
+    (*s)[0] = *x;
+    (*s)[1] = *y;
+    (*s)[2] = *z;
+    s->yaw() = *th;
+    return true;
+}
+
+static int runOwen(double rho, double pitch, double lo, double hi)
+{
+    OSS sp(rho, pitch);
+    ob::RealVectorBounds b(3);
+    b.setLow(lo);
+    b.setHigh(hi);
+    sp.setBounds(b);
+    auto *s1 = sp.allocState()->as<OSS::StateType>();
+    auto *s2 = sp.allocState()->as<OSS::StateType>();
+    auto *o = sp.allocState()->as<OSS::StateType>();
+    std::string line;
+    while (vp::readLine(line))
+    {
+        auto t = vp::tokens(line);
+        if (t.empty())
+            continue;
+        const std::string &op = t[0];
+        bool pathOp = (op == "owpath" && t.size() == 9) || (op == "owpathr" && t.size() == 10 && vp::parseBits(t[9]));
+        bool interpOp = (op == "owinterp" && t.size() == 10) || (op == "owinterpr" && t.size() == 11 && vp::parseBits(t[10]));
+        if (pathOp && setPose4(s1, t, 1) && setPose4(s2, t, 5))
+        {
+            auto p = sp.getPath(s1, s2);
+            if (!p || isDefault(p->path_))
+            {
+                out("nopath");
+                continue;
+            }
+            out(std::string("cat=") + static_cast<char>(p->category()) + " " + showPath(p->path_) + " r=" + vp::bits(p->turnRadius_) +
+                " dz=" + vp::bits(p->deltaZ_) + " phi=" + vp::bits(p->phi_) + " k=" + std::to_string(p->numTurns_) +
+                " len=" + vp::bits(p->length()));
+        }
+        else if (op == "owdist" && t.size() == 9 && setPose4(s1, t, 1) && setPose4(s2, t, 5))
+            out("d=" + vp::bits(sp.distance(s1, s2)));
+        else if (interpOp && setPose4(s1, t, 1) && setPose4(s2, t, 5) && vp::parseBits(t[9]))
+        {
+            auto p = sp.getPath(s1, s2);
+            if (p && isDefault(p->path_))
+            {
+                out("nopath");
+                continue;
+            }
+            sp.interpolate(s1, s2, *vp::parseBits(t[9]), o);
+            out(vp::bits((*o)[0]) + " " + vp::bits((*o)[1]) + " " + vp::bits((*o)[2]) + " " + vp::bits(o->yaw()));
+        }
+        else
+            out("bad-op");
+    }
+    sp.freeState(s1);
+    sp.freeState(s2);
+    sp.freeState(o);
+    return 0;
+}
+
 int main()
 {
     std::string line;
@@ -248,6 +323,8 @@ int main()
         return runDubins(*kv("rho", h[1]), h[2] == "sym=1", *kv("lo", h[3]), *kv("hi", h[4]));
     if (h.size() == 4 && h[0] == "rs" && kv("rho", h[1]) && kv("lo", h[2]) && kv("hi", h[3]))
         return runRS(*kv("rho", h[1]), *kv("lo", h[2]), *kv("hi", h[3]));
+    if (h.size() == 5 && h[0] == "owen" && kv("rho", h[1]) && kv("pitch", h[2]) && kv("lo", h[3]) && kv("hi", h[4]))
+        return runOwen(*kv("rho", h[1]), *kv("pitch", h[2]), *kv("lo", h[3]), *kv("hi", h[4]));
     std::cout << "bad-header\n";
     return 2;
 }
